@@ -7,8 +7,8 @@ Tie: histories (gen/c06_gen.py) are run as JavaScript in boa (harness `icops`, I
 lists in the extracted model (ocaml/C06): values read, results of every mutation, final dumps and the per-site
 hit/miss/store/megamorphic decisions must agree, with caches on and with caches off (NO_IC switch).
 Search / property oracle on the implementation alone: the same program with caches on and off must print the
-same trace.  A divergence is labelled by the extracted `first_known` predicate evaluated on the failing history
-(class of the first known-class step), never by the property id.
+same trace.  A divergence is labelled by the extracted `first_irregular` predicate evaluated on the failing history
+(residual side condition of the main theorem), never by the property id.
 
 Token grammar of one operation's outputs (blank separated), both sides:
   c:<f>:<val|->   call of opaque function f (getter: no argument)      v:<val>   value read
@@ -43,26 +43,14 @@ TRUSTED = [
     "(JavaScript printer of histories), this Python driver",
     "correspondence is differential testing: it ties model and engine on the histories it ran",
 ]
-KNOWN_CLASSES = {
-    "proto-entry-after-prototype-layout-change":
-        "PROTOTYPE-flagged cache entry used after the prototype object's own layout/attributes of the key changed "
-        "(DESIGN.md section 5 #11): stale value, getter function returned as value, or index out of bounds (panic)",
-    "unique-shape-same-width-attribute-change":
-        "entry keyed by a unique shape survives a same-width attribute change done in place (`TODO: invalidate the pointer`, "
-        "section 5 #12): cached write to a property made non-writable",
-    "unique-shape-in-place-insert-shadows-proto-entry":
-        "PROTOTYPE-flagged entry keyed by a unique shape survives the in-place insertion of an own property of that name",
-    "cached-set-on-accessor-without-setter":
-        "strict-mode assignment through a cached accessor slot whose setter is undefined returns silently (uncached: TypeError)",
-}
-
-
-FIX_FOR = {
-    "proto-entry-after-prototype-layout-change": "fixes.d/C06-ic-prototype-entry.patch",
-    "unique-shape-in-place-insert-shadows-proto-entry": "fixes.d/C06-ic-prototype-entry.patch",
-    "unique-shape-same-width-attribute-change": "fixes.d/C06-unique-shape-attr-change.patch",
-    "cached-set-on-accessor-without-setter": "fixes.d/C06-cached-set-no-setter.patch",
-}
+# The four classes this check found on the tree of 2026-09-23 (prototype-slot entry after a layout change of the prototype, unique shape
+# keeping its identity on a same-width attribute change, in-place insert on a unique shape shadowing a prototype-slot entry, cached strict
+# set on a setter-less accessor) were fixed in /repo (9cca1b6, 8ab7f21, 8316c55); the old transitions and their refutation witnesses live
+# in coq/C06/Old_C06.v.  The repaired model has one residual side condition, evaluated on every history (`first_irregular`): a hit on an
+# accessor slot without GET/SET flag or with a non-callable getter -- only builtins' direct PropertyMap::insert makes such slots.
+KNOWN_CLASSES = {}
+RESIDUAL = "cached-hit-on-irregular-accessor-slot"
+FIX_FOR = {}
 
 
 # ------------------------------------------------------------------------------------------------ running both sides
@@ -246,7 +234,7 @@ def replay_obj(r, kind, **kw):
             o["caches_on"] = r["ops_c"][d] if d < len(r["ops_c"]) else None
             o["caches_off"] = r["ops_u"][d] if d < len(r["ops_u"]) else None
     if r.get("model") is not None:
-        o["model_first_known_step"] = r["model"][2]
+        o["model_first_irregular_step"] = r["model"][2]
     o.update(kw)
     return o
 
@@ -375,7 +363,8 @@ def main():
             dist["caches_on_off_differ"] += 1
             prop_bad.setdefault(r["cls"], []).append((i, r))
     run.cov["distribution"] = dist
-    run.cov["known_class_hits"] = {str(k): len(v) for k, v in prop_bad.items()}
+    run.cov["caches_on_off_differences_by_class"] = {str(k): len(v) for k, v in prop_bad.items()}
+    run.cov["histories_with_irregular_accessor_hit"] = sum(1 for i, h in hs if res.get(i) and res[i].get("known"))
     run.cov["programs"] = 2 * len(hs)
     if errors:
         run.notes.append({"cases_without_result": errors[:5], "count": len(errors)})
@@ -386,15 +375,14 @@ def main():
     for cls, lst in sorted(prop_bad.items(), key=lambda kv: str(kv[0])):
         lst.sort(key=lambda ir: len(ir[1]["h"]))
         i, r = lst[0]
-        if model_ok and cls is not None:
+        if model_ok:
             small = shrink(batch, r["h"], cls)
             if len(small) < len(r["h"]):
                 rr, _ = batch.evaluate([("s", small)])
                 if "error" not in rr["s"] and rr["s"]["prop"] is not None and rr["s"]["cls"] == cls:
                     r = rr["s"]
-        if cls is None:
-            found_unknown = True
-        run.violation(replay_obj(r, "counterexample", **{"class": cls}, what=KNOWN_CLASSES.get(cls, "caches on/off disagree outside the classes the model predicts"),
+        found_unknown = True
+        run.violation(replay_obj(r, "counterexample", **{"class": cls}, what=("caches on/off disagree on a history the model classifies as a hit on an irregular accessor slot" if cls == RESIDUAL else "caches on/off disagree (the repaired model proves transparency for this history)"),
                                  occurrences_in_this_run=len(lst),
                                  fix=FIX_FOR.get(cls)))
     # correspondence
@@ -412,7 +400,7 @@ def main():
     if broken is not None:
         if not found_unknown and not corr_bad:
             run.violation({"kind": "proof-broken", "obligation": "C06/Props_C06.v over regenerated Gen/SlotFlags.v / extraction", "detail": broken,
-                           "search": "%d histories with caches on/off: no divergence outside the known classes" % len(hs)}, found_input=False)
+                           "search": "%d histories with caches on/off: no divergence" % len(hs)}, found_input=False)
         else:
             run.notes.append({"proof_broken": broken})
     run.assumptions = TRUSTED
@@ -434,5 +422,5 @@ def replay(obj):
         mark = " <== caches on/off differ" if r["prop"] == i else ""
         print("%3d %-40s on: %-28s off: %-28s model-on: %-28s model-off: %s%s" % (
             i, c06_gen.to_wire([h[i]]), row(r["ops_c"]), row(r["ops_u"]), row(r["model"][0]), row(r["model"][1]), mark))
-    print("first known-class step (model):", r["model"][2], " class:", r["cls"])
+    print("first irregular-accessor-slot step (model):", r["model"][2], " class:", r["cls"])
     return 1 if r["prop"] is not None else 0
